@@ -78,3 +78,16 @@ Proof.
 Qed.
 Print Assumptions C17_miter0_raises.
 
+
+(* the iterate handed back by newton when every direction is the unit step: without a line search one
+   full step per residual evaluation consumed; with one, each step is between 0 and the full step *)
+Theorem C17_newton_iterate_without_search :
+  forall atol rtol ms obs nr0 iters p nr x c v,
+  newton_loop atol rtol false ms obs nr0 iters p nr = Ret c v ->
+  (newton_pos atol rtol false ms obs nr0 iters p nr x == x - inject_Z (Z.of_nat c - Z.of_nat p))%Q /\ (p <= c)%nat.
+Proof. exact newton_pos_no_search. Qed.
+Print Assumptions C17_newton_iterate_without_search.
+
+Theorem C17_line_search_step_bounds : forall t ms, (t <= ms)%nat -> (0 <= ls_step t <= 1)%Q.
+Proof. exact ls_step_bounds. Qed.
+Print Assumptions C17_line_search_step_bounds.
